@@ -6,7 +6,7 @@ KINDS = ["NewGrp", "Sub", "Leave", "SetSelf", "SetOther", "DelSub", "DelTopic", 
 
 def run(ctx):
     return tc.run_topic_check(
-        ctx, "C03", kinds=KINDS, maxseq=4, p2p=True, root=True, special=True,
+        ctx, "C03", kinds=KINDS, maxseq=4, p2p=True, root=True, special=True, suspend=True,
         want=["-", "N", "JRW", "JR", "JW", "RW"], given=["-", "N", "JRW", "JR", "RW", "JRWPAS"],
         u1_quick={"want": ["-", "N", "JRW", "JR"], "given": ["-", "N", "JRW", "JR"], "kinds": ["NewGrp", "Sub", "Leave", "SetSelf", "SetOther", "Pub", "Unload"], "maxseq": 1, "nusers": 2},
         u1_thorough={"want": ["-", "N", "JRW", "JR"], "given": ["-", "N", "JRW", "JR"], "kinds": KINDS, "maxseq": 1},
